@@ -244,6 +244,37 @@ pub fn crash_main(args: &[String]) {
     let text = std::fs::read_to_string(&args[0]).unwrap_or_default();
     let mut out = vec![];
     let mut n = 0;
+    if text.starts_with("%%%LIBRARY\n") {
+        // a whole library in one file (notes separated by "%%%NOTE <key>" lines): start-up, path listing, search, one edit
+        let mut st: HashMap<String, String> = HashMap::new();
+        let mut cur: Option<String> = None;
+        for l in text.lines().skip(1) {
+            if let Some(k) = l.strip_prefix("%%%NOTE ") {
+                cur = Some(k.to_string());
+                st.insert(k.to_string(), String::new());
+            } else if let Some(k) = &cur {
+                let e = st.get_mut(k).unwrap();
+                e.push_str(l);
+                e.push('\n');
+            }
+        }
+        if let Err(p) = mon::catch(|| {
+            let first = st.keys().next().cloned().unwrap_or_default();
+            let t = st.get(&first).cloned().unwrap_or_default();
+            let mut db = Database::new(st.clone(), false, MarkdownOptions::default());
+            let _ = db.graph().paths().len();
+            let _ = db.global_search("");
+            db.update_document(first.as_str().into(), format!("{}\nedited\n", t));
+            let _ = db.global_search("x");
+        }) {
+            out.push((p.signature(), format!("library: {}", p.message.chars().take(160).collect::<String>())));
+        }
+        println!("OK {:.3} {} {:?}", mon::process_cpu_s(), out.len(), Ok::<(), String>(()));
+        for (sig, d) in out.iter().take(5) {
+            println!("PANIC {} :: {}", sig, d);
+        }
+        return;
+    }
     drive_lib(&text, &mut out);
     let r = drive_lsp(&text, &mut out, &mut n);
     println!("OK {:.3} {} {:?}", mon::process_cpu_s(), out.len(), r);
@@ -260,6 +291,30 @@ fn ramp(kind: usize, n: usize) -> (String, String) {
         3 => ("nested-quotes".into(), format!("{} deep\n", ">".repeat(n))),
         4 => ("nested-lists".into(), (0..n).map(|i| format!("{}- l{}\n", "  ".repeat(i), i)).collect()),
         5 => ("nested-headings".into(), (0..n).map(|i| format!("{} h{}\n\n", "#".repeat((i % 6) + 1), i)).collect()),
+        8 => {
+            // stacked diamonds: two notes per level, each including both notes of the next level (2^n paths)
+            let mut t = String::from("%%%LIBRARY\n");
+            for i in 0..n {
+                for side in ["x", "y"] {
+                    t.push_str(&format!("%%%NOTE {}{}\n# {} {}\n\n", side, i, side, i));
+                    if i + 1 < n {
+                        t.push_str(&format!("[x](x{})\n\n[y](y{})\n", i + 1, i + 1));
+                    }
+                }
+            }
+            ("stacked-diamonds".into(), t)
+        }
+        9 => {
+            // a chain of notes, each including the next
+            let mut t = String::from("%%%LIBRARY\n");
+            for i in 0..n {
+                t.push_str(&format!("%%%NOTE n{}\n# n {}\n\n", i, i));
+                if i + 1 < n {
+                    t.push_str(&format!("[next](n{})\n", i + 1));
+                }
+            }
+            ("note-chain".into(), t)
+        }
         6 => ("long-line".into(), format!("{}\n", "word ".repeat(n))),
         _ => ("many-links".into(), format!("{}\n", (0..n).map(|i| format!("[l{}](n2)", i)).collect::<Vec<_>>().join(" "))),
     }
@@ -357,7 +412,7 @@ impl Check for C03 {
 impl C03 {
     fn ramp_case(&self, tier: Tier, idx: u64, n_ramp: u64, _rng: &mut Rng, mut rep: CaseReport) -> CaseReport {
         // (kind, size) grid: sizes up to the clean bound, and a few beyond it (known finding)
-        let kinds = 8u64;
+        let kinds = 10u64;
         let kind = (idx % kinds) as usize;
         let step = idx / kinds;
         let steps = (n_ramp / kinds).max(1);
@@ -365,6 +420,10 @@ impl C03 {
             0 | 1 | 2 | 5 => 2000,
             3 | 4 => tier.pick(60, 120),
             6 => tier.pick(20000, 200000),
+            // stacked diamonds: 2^n paths, so the clean bound is a number of levels that still answers quickly; the
+            // growth beyond it (a 40-note library that takes minutes and gigabytes) is recorded in DESIGN.md
+            8 => tier.pick(12, 14),
+            9 => tier.pick(150, 240),
             _ => tier.pick(4000, 20000),
         };
         let beyond = step + 1 == steps && kind <= 4; // the last step of the recursive-walk kinds goes beyond the clean bound
